@@ -170,9 +170,11 @@ Section V.
 Variable isalpha_c isprint_c : N -> bool.
 Variable foldc titlec lowerc : N -> N.
 Variable R1 R2 R3 : bool -> ann rtag -> list code.
+Variable fixed : bool.
 
-Notation verdict := (verdict isalpha_c isprint_c foldc titlec lowerc R1 R2 R3).
-Notation check_capitalization := (check_capitalization titlec lowerc).
+Notation verdict := (verdict isalpha_c isprint_c foldc titlec lowerc fixed R1 R2 R3).
+Notation check_capitalization := (check_capitalization titlec lowerc fixed).
+Notation check_tag_formatting := (check_tag_formatting fixed).
 Notation check_required := (check_required foldc).
 Notation check_unique := (check_unique foldc).
 Notation char_issues := (char_issues isprint_c).
@@ -337,13 +339,13 @@ Qed.
 Lemma char_issues_app b x y : char_issues b (x ++ y) = char_issues b x ++ char_issues b y.
 Proof. unfold Namespace.char_issues. apply flat_map_app. Qed.
 
-Theorem prefixed_equiv_partial G p Sp a :
+Theorem prefixed_equiv_gen G p Sp a :
   RUniform R1 -> RUniform R2 -> RUniform R3 ->
   NoDup (map fst G) -> lookup p G = Some Sp -> wf_ns p -> str_isalpha (drop_last p) = true ->
   schema83_group G = schema83_single Sp ->
   char_issues (schema83_group G) p = [] ->
   all_unprefixed a ->
-  Forall (fun t => fmt_count (p ++ t) = fmt_count t) (ann_tags a) ->
+  Forall (fun t => check_tag_formatting (p ++ t) = check_tag_formatting t) (ann_tags a) ->
   Forall (fun r => check_capitalization (set_ns p r) = check_capitalization r)
          (ann_tags (resolved (cfg_single ([], Sp)) a)) ->
   ForeignSilent G p (map (set_ns p) (ann_tags (resolved (cfg_single ([], Sp)) a))) ->
@@ -371,8 +373,7 @@ Proof.
                flat_map check_tag_formatting (ann_tags a)).
   { rewrite !flat_map_map. f_equal.
     - apply flat_map_ext_in. apply Forall_forall. intros t _. rewrite char_issues_app, Hchars. reflexivity.
-    - apply flat_map_ext_in. eapply Forall_impl; [|exact Hfmt]. intros t Ht. simpl in Ht.
-      unfold check_tag_formatting. rewrite Ht. reflexivity. }
+    - apply flat_map_ext_in. exact Hfmt. }
   rewrite E1. clear E1.
   set (s1 := flat_map (char_issues (schema83_group G)) (ann_tags a) ++ flat_map check_tag_formatting (ann_tags a)).
   destruct (any_error s1); [reflexivity|].
@@ -511,12 +512,13 @@ Qed.
 
 (* a namespace that set_schema_prefix accepts is alphabetic text + ':' *)
 Lemma set_schema_prefix_ok ns ns' :
-  set_schema_prefix isalpha_c ns = Ok ns' -> ns' = [] \/ (str_isalpha (drop_last ns') = true).
+  set_schema_prefix isalpha_c fixed ns = Ok ns' -> ns' = [] \/ (str_isalpha (drop_last ns') = true).
 Proof.
   unfold set_schema_prefix. destruct ns as [|c r]; [intro H; injection H as <-; left; reflexivity|].
   set (x := if N.eqb (last (c :: r) 0%N) ch_colon then c :: r else (c :: r) ++ [ch_colon]).
   destruct x as [|d x'] eqn:Ex; [intro H; injection H as <-; left; reflexivity|].
   destruct (Namespace.str_isalpha isalpha_c (drop_last (d :: x'))) eqn:Ea; [|discriminate].
+  destruct (negb fixed || is_ascii (d :: x')); [|discriminate].
   intro H. injection H as <-. right. exact Ea.
 Qed.
 
@@ -633,10 +635,10 @@ Proof.
     + simpl. rewrite (pvl_loop_only_dup _ _ _ E). reflexivity.
 Qed.
 
-Theorem same_library_twice_refused isalpha_c rp l1 v l2 v' l3 :
+Theorem same_library_twice_refused isalpha_c fixed rp l1 v l2 v' l3 :
   split_ns v = split_ns v' ->
   parse_version_list (l1 ++ v :: l2 ++ v' :: l3) = LErr SCHEMA_DUPLICATE_LIBRARY /\
-  load_schema_version isalpha_c rp (l1 ++ v :: l2 ++ v' :: l3) = LErr SCHEMA_DUPLICATE_LIBRARY.
+  load_schema_version isalpha_c fixed rp (l1 ++ v :: l2 ++ v' :: l3) = LErr SCHEMA_DUPLICATE_LIBRARY.
 Proof.
   intro Heq.
   assert (H : parse_version_list (l1 ++ v :: l2 ++ v' :: l3) = LErr SCHEMA_DUPLICATE_LIBRARY).
@@ -850,9 +852,9 @@ Proof.
   apply add_tag_registers; assumption.
 Qed.
 
-Theorem load_rest_clash_refused isalpha_c rp v rest ns first L :
-  load_sub isalpha_c rp v ns (Some first) = LOk L -> t_dups (l_table L) <> [] ->
-  load_rest isalpha_c rp (v :: rest) ns first = LErr SCHEMA_DUPLICATE_NAMES.
+Theorem load_rest_clash_refused isalpha_c fixed rp v rest ns first L :
+  load_sub isalpha_c fixed rp v ns (Some first) = LOk L -> t_dups (l_table L) <> [] ->
+  load_rest isalpha_c fixed rp (v :: rest) ns first = LErr SCHEMA_DUPLICATE_NAMES.
 Proof.
   intros HL Hd. simpl. rewrite HL. simpl. destruct (t_dups (l_table L)); [contradiction | reflexivity].
 Qed.
@@ -977,3 +979,288 @@ Proof.
     unfold fold in *. rewrite (map_app foldc p x). apply prefixb_incomparable; assumption.
 Qed.
 End Silent.
+
+(* ------------------------------------------------------------------ the code after the repairs (fixed = true) *)
+
+Definition is_ascii_letter (c : N) : bool := ((65 <=? c) && (c <=? 90) || (97 <=? c) && (c <=? 122))%N.
+
+(* a namespace the repaired set_schema_prefix accepts: ASCII letters followed by ':' *)
+Definition ns_ok (p : str) : Prop :=
+  exists q, p = q ++ [ch_colon] /\ q <> [] /\ forallb is_ascii_letter q = true.
+
+(* the remainder a resolver returns is part of the text it was given *)
+Definition FindFits (Sp : sch) : Prop :=
+  forall t e r iss, s_find Sp t = (e, Some r, iss) -> length r <= length t.
+
+Lemma letter_cases c : is_ascii_letter c = true -> (65 <= c <= 90 \/ 97 <= c <= 122)%N.
+Proof.
+  unfold is_ascii_letter. intro H. apply orb_true_iff in H as [H|H];
+    apply andb_true_iff in H as [H1 H2]; apply N.leb_le in H1, H2; [left | right]; split; assumption.
+Qed.
+
+Lemma ns_ok_wf p : ns_ok p -> wf_ns p.
+Proof.
+  intros [q [-> [_ Hq]]]. exists q. split; [reflexivity|]. unfold no_cs.
+  induction q as [|c q IH]; simpl in *; [reflexivity|].
+  apply andb_true_iff in Hq as [Hc Hq]. rewrite (IH Hq), andb_true_r.
+  apply letter_cases in Hc. unfold ch_colon, ch_slash.
+  destruct (N.eqb_spec c 58); [lia|]. destruct (N.eqb_spec c 47); [lia|]. reflexivity.
+Qed.
+
+Lemma drop_last_snoc (q : str) c : drop_last (q ++ [c]) = q.
+Proof.
+  unfold drop_last. rewrite app_length. simpl. replace (length q + 1 - 1) with (length q) by lia.
+  apply firstn_app_exact.
+Qed.
+
+Lemma prefixb_app_self p x : prefixb p (p ++ x) = true.
+Proof. induction p as [|c p IH]; simpl; [reflexivity | rewrite N.eqb_refl; exact IH]. Qed.
+
+Section Fixed.
+Variable isalpha_c isprint_c : N -> bool.
+Variable foldc titlec lowerc : N -> N.
+Variable R1 R2 R3 : bool -> ann rtag -> list code.
+(* what the theorems need to know about the Unicode tables (checked on CPython's tables in NamespaceData.v) *)
+Hypothesis HA : forall c, is_ascii_letter c = true -> isalpha_c c = true.
+Hypothesis HP : forall c, (32 <= c <= 126)%N -> isprint_c c = true.
+
+Lemma ns_ok_alpha p : ns_ok p -> str_isalpha isalpha_c (drop_last p) = true.
+Proof.
+  intros [q [-> [Hne Hq]]]. rewrite drop_last_snoc. unfold str_isalpha. destruct q as [|c q]; [contradiction|].
+  clear Hne. induction (c :: q) as [|d l IH]; simpl in *; [reflexivity|].
+  apply andb_true_iff in Hq as [Hd Hl]. rewrite (HA d Hd), (IH Hl). reflexivity.
+Qed.
+
+Lemma char_issue_clean flag c :
+  (is_ascii_letter c = true \/ c = ch_colon) -> char_issue isprint_c flag c = [].
+Proof.
+  intro H.
+  assert (Hb : (32 <= c <= 126)%N /\ c <> 91%N /\ c <> 93%N /\ c <> 123%N /\ c <> 125%N /\ c <> 126%N).
+  { destruct H as [H| ->]; [apply letter_cases in H; lia | unfold ch_colon; lia]. }
+  destruct Hb as [Hr [H1 [H2 [H3 [H4 H5]]]]].
+  unfold char_issue, mem_char, invalid_string_chars. simpl existsb.
+  destruct (N.eqb_spec c 91); [contradiction|]. destruct (N.eqb_spec c 93); [contradiction|].
+  destruct (N.eqb_spec c 123); [contradiction|]. destruct (N.eqb_spec c 125); [contradiction|].
+  destruct (N.eqb_spec c 126); [contradiction|]. simpl.
+  destruct flag.
+  - rewrite (HP c Hr). reflexivity.
+  - replace (127 <? c)%N with false by (symmetry; apply N.ltb_ge; lia). reflexivity.
+Qed.
+
+Lemma ns_ok_chars flag p : ns_ok p -> char_issues isprint_c flag p = [].
+Proof.
+  intros [q [-> [_ Hq]]]. unfold char_issues. rewrite flat_map_app. simpl.
+  rewrite (char_issue_clean flag ch_colon (or_intror eq_refl)). rewrite app_nil_r.
+  apply flat_map_nil. apply Forall_forall. intros c Hc. apply char_issue_clean. left.
+  rewrite forallb_forall in Hq. exact (Hq c Hc).
+Qed.
+
+(* C13-F2 repaired: the slash pattern sees the same text with and without the namespace *)
+Lemma fmt_fixed_neutral p t :
+  wf_ns p -> get_schema_namespace t = [] ->
+  check_tag_formatting true (p ++ t) = check_tag_formatting true t.
+Proof.
+  intros Hp Ht. unfold check_tag_formatting. rewrite (ns_of_wf p t Hp), skipn_app_exact, Ht. reflexivity.
+Qed.
+
+(* C13-F3 repaired: the capitalisation rule sees the same names with and without the namespace *)
+Lemma cap_fixed_neutral p r :
+  p <> [] -> rt_ns r = [] -> length (ext_value r) <= length (rt_body r) ->
+  check_capitalization titlec lowerc true (set_ns p r) = check_capitalization titlec lowerc true r.
+Proof.
+  intros Hp Hn Hfit. unfold check_capitalization.
+  assert (E : cap_base true (set_ns p r) = cap_base true r); [|rewrite E; reflexivity].
+  destruct r as [ns body e rem]. simpl in Hn. subst ns. unfold cap_base, set_ns, org_base_tag. cbn [rt_ns rt_body rt_entry rt_rem].
+  destruct p as [|c p']; [contradiction|]. set (p := c :: p') in *.
+  cbn [app]. change (c :: p' ++ body) with (p ++ body).
+  destruct e as [e|].
+  - unfold ext_value in *. cbn [rt_rem rt_body] in *. set (ext := match rem with Some x => x | None => [] end) in *.
+    destruct (Nat.eqb (length ext) 0) eqn:E0.
+    + rewrite prefixb_app_self, skipn_app_exact. reflexivity.
+    + destruct (Nat.eqb (length (p ++ body)) (length ext)) eqn:E1.
+      * apply Nat.eqb_eq in E1. rewrite app_length in E1. unfold p in E1. simpl in E1. lia.
+      * rewrite app_length.
+        replace (length p + length body - length ext) with (length p + (length body - length ext)) by lia.
+        rewrite firstn_app_2, prefixb_app_self, skipn_app_exact.
+        destruct (Nat.eqb (length body) (length ext)) eqn:E2; [|reflexivity].
+        apply Nat.eqb_eq in E2. rewrite E2, Nat.sub_diag. reflexivity.
+  - rewrite prefixb_app_self, skipn_app_exact. reflexivity.
+Qed.
+
+(* Clause 1 of the property for the code as it is now: no condition on slashes, capitalisation or the
+   characters of the namespace is left.  What remains explicit: the group and p's schema use the same
+   character-rule generation (C13-F1), and the other schemas contribute no matching required/unique names. *)
+Theorem prefixed_equiv G p Sp a :
+  RUniform R1 -> RUniform R2 -> RUniform R3 ->
+  NoDup (map fst G) -> lookup p G = Some Sp -> ns_ok p -> FindFits Sp ->
+  schema83_group G = schema83_single Sp ->
+  all_unprefixed a ->
+  ForeignSilent foldc G p (map (set_ns p) (ann_tags (resolved (cfg_single ([], Sp)) a))) ->
+  verdict isalpha_c isprint_c foldc titlec lowerc true R1 R2 R3 (cfg_group G) (prefix_ann p a) =
+  verdict isalpha_c isprint_c foldc titlec lowerc true R1 R2 R3 (cfg_single ([], Sp)) a.
+Proof.
+  intros U1 U2 U3 HND HL Hok Hfit Hflag Hun Hsil.
+  pose proof (ns_ok_wf p Hok) as Hp.
+  apply prefixed_equiv_gen; try assumption.
+  - apply ns_ok_alpha. exact Hok.
+  - apply ns_ok_chars. exact Hok.
+  - eapply Forall_impl; [|exact Hun]. intros t Ht. simpl in Ht. apply fmt_fixed_neutral; assumption.
+  - unfold resolved. rewrite ann_tags_map. apply Forall_map.
+    eapply Forall_impl; [|exact Hun]. intros t Ht. simpl in Ht.
+    rewrite (resolve_single_unprefixed Sp t Ht).
+    destruct (s_find Sp t) as [[e rem] iss] eqn:Ef. cbn [fst].
+    apply cap_fixed_neutral; [apply wf_ns_nonempty; exact Hp | reflexivity |].
+    unfold ext_value. cbn [rt_rem rt_body]. destruct rem as [r|]; [exact (Hfit t e r iss Ef) | simpl; lia].
+Qed.
+
+(* the namespaces the repaired loader can put on a schema are exactly of this shape *)
+Hypothesis HC : forall c, isalpha_c c = true -> (c <= 127)%N -> is_ascii_letter c = true.
+
+Theorem loaded_namespace_ok ns ns' :
+  set_schema_prefix isalpha_c true ns = Ok ns' -> ns' = [] \/ ns_ok ns'.
+Proof.
+  unfold set_schema_prefix. destruct ns as [|c r]; [intro H; injection H as <-; left; reflexivity|].
+  set (x := if N.eqb (last (c :: r) 0%N) ch_colon then c :: r else (c :: r) ++ [ch_colon]).
+  assert (Hx : exists q, x = q ++ [ch_colon]).
+  { unfold x. destruct (N.eqb (last (c :: r) 0%N) ch_colon) eqn:El.
+    - apply N.eqb_eq in El. exists (removelast (c :: r)). rewrite <- El. apply app_removelast_last. discriminate.
+    - exists (c :: r). reflexivity. }
+  destruct Hx as [q Hq]. rewrite Hq.
+  destruct (q ++ [ch_colon]) as [|d x'] eqn:Ex; [destruct q; discriminate|]. rewrite <- Ex.
+  rewrite drop_last_snoc. simpl negb. rewrite orb_false_l.
+  destruct (str_isalpha isalpha_c q) eqn:Ea; [|discriminate].
+  destruct (is_ascii (q ++ [ch_colon])) eqn:Eas; [|discriminate].
+  intro H. injection H as <-. right. exists q. split; [reflexivity|].
+  unfold str_isalpha in Ea. destruct q as [|e q']; [discriminate|]. split; [discriminate|].
+  unfold is_ascii in Eas. rewrite forallb_app in Eas. apply andb_true_iff in Eas as [Eas _].
+  rewrite forallb_forall in *. intros y Hy. apply HC; [apply Ea; exact Hy|]. apply N.leb_le. apply Eas. exact Hy.
+Qed.
+End Fixed.
+
+(* ------------------------------------------------------------------ record: the code before the repairs *)
+
+(* what could be proved of the unrepaired code (fixed = false): the same equivalence, but only for annotations on
+   which the slash pattern and the capitalisation rule happen to agree, and namespaces whose characters pass *)
+Theorem prefixed_equiv_partial isalpha_c isprint_c foldc titlec lowerc R1 R2 R3 G p Sp a :
+  RUniform R1 -> RUniform R2 -> RUniform R3 ->
+  NoDup (map fst G) -> lookup p G = Some Sp -> wf_ns p -> str_isalpha isalpha_c (drop_last p) = true ->
+  schema83_group G = schema83_single Sp ->
+  char_issues isprint_c (schema83_group G) p = [] ->
+  all_unprefixed a ->
+  Forall (fun t => fmt_count (p ++ t) = fmt_count t) (ann_tags a) ->
+  Forall (fun r => check_capitalization titlec lowerc false (set_ns p r) = check_capitalization titlec lowerc false r)
+         (ann_tags (resolved (cfg_single ([], Sp)) a)) ->
+  ForeignSilent foldc G p (map (set_ns p) (ann_tags (resolved (cfg_single ([], Sp)) a))) ->
+  verdict isalpha_c isprint_c foldc titlec lowerc false R1 R2 R3 (cfg_group G) (prefix_ann p a) =
+  verdict isalpha_c isprint_c foldc titlec lowerc false R1 R2 R3 (cfg_single ([], Sp)) a.
+Proof.
+  intros U1 U2 U3 HND HL Hp Ha Hflag Hc Hun Hfmt Hcap Hsil.
+  apply prefixed_equiv_gen; try assumption.
+  eapply Forall_impl; [|exact Hfmt]. intros t Ht. simpl in Ht. unfold check_tag_formatting. rewrite Ht. reflexivity.
+Qed.
+
+(* ------------------------------------------------------------------ the table resolver meets FindFits *)
+
+Lemma split_on_nonempty c s : split_on c s <> [].
+Proof.
+  induction s as [|x xs IH]; simpl; [discriminate|].
+  destruct (N.eqb x c); [discriminate|]. destruct (split_on c xs); [contradiction | discriminate].
+Qed.
+
+Lemma join_cons2 (sep x y : str) r : join sep (x :: y :: r) = x ++ sep ++ join sep (y :: r).
+Proof. reflexivity. Qed.
+
+Lemma join_split c s : join [c] (split_on c s) = s.
+Proof.
+  induction s as [|x xs IH]; simpl; [reflexivity|].
+  destruct (N.eqb x c) eqn:E.
+  - apply N.eqb_eq in E. subst x. destruct (split_on c xs) as [|p ps] eqn:Es; [exfalso; eapply split_on_nonempty; exact Es|].
+    rewrite join_cons2, IH. reflexivity.
+  - destruct (split_on c xs) as [|p ps] eqn:Es; [exfalso; eapply split_on_nonempty; exact Es|].
+    destruct ps as [|p' ps'].
+    + simpl in *. rewrite IH. reflexivity.
+    + rewrite join_cons2 in *. rewrite <- IH. reflexivity.
+Qed.
+
+Lemma join_tl_le sep (l : list str) : length (join sep (tl l)) <= length (join sep l).
+Proof.
+  destruct l as [|x [|y r]]; simpl; try lia. rewrite !app_length. lia.
+Qed.
+
+Lemma join_skipn_le sep k : forall l : list str, length (join sep (skipn k l)) <= length (join sep l).
+Proof.
+  induction k as [|k IH]; intro l; [simpl; lia|].
+  destruct l as [|x l]; [simpl; lia|]. simpl skipn.
+  etransitivity; [apply IH|]. apply (join_tl_le sep (x :: l)).
+Qed.
+
+Lemma join_skipn_lt c k (l : list str) :
+  1 <= k -> k < length l -> S (length (join [c] (skipn k l))) <= length (join [c] l).
+Proof.
+  intros Hk Hl. destruct k as [|k]; [lia|]. destruct l as [|x [|y r]]; simpl in Hl; try lia.
+  change (skipn (S k) (x :: y :: r)) with (skipn k (y :: r)). rewrite join_cons2, !app_length.
+  change (length [c]) with 1.
+  pose proof (join_skipn_le [c] k (y :: r)). lia.
+Qed.
+
+Lemma join_ge_last sep (l : list str) d : l <> [] -> length (last l d) <= length (join sep l).
+Proof.
+  induction l as [|x l IH]; [contradiction|]. intros _. destruct l as [|y r]; [simpl; lia|].
+  rewrite join_cons2, !app_length. change (last (x :: y :: r) d) with (last (y :: r) d).
+  assert (H : y :: r <> []) by discriminate. specialize (IH H). lia.
+Qed.
+
+Lemma walk_ge T w n : forall k cur e k',
+  walk T w k n cur = (Some e, k') -> k <= k' /\ (cur = None -> S k <= k').
+Proof.
+  induction n as [|n IH]; intros k cur e k' H; cbn [walk] in H.
+  - injection H as -> <-. split; [lia | discriminate].
+  - destruct (km_get (firstn (S k) w) (t_keys T)) as [e0|].
+    + apply IH in H as [H1 _]. split; [lia | intros _; lia].
+    + injection H as -> <-. split; [lia | discriminate].
+Qed.
+
+Theorem table_find_fits T clean e r iss : table_find T clean = (e, Some r, iss) -> length r <= length clean.
+Proof.
+  unfold table_find. set (comps := split_on ch_slash clean). set (w := map fold_ascii comps).
+  assert (Hclean : length (join [ch_slash] comps) = length clean) by (unfold comps; rewrite join_split; reflexivity).
+  destruct (km_get w (t_keys T)) as [e0|].
+  - intro H. injection H as _ <- _.
+    destruct (rev w) as [|x [|y r']] eqn:Er; try (simpl; lia).
+    destruct (str_eqb x hash_comp) eqn:Ex; [|simpl; lia]. apply str_eqb_spec in Ex. subst x.
+    (* at least two components, the last one of length 1 *)
+    assert (Hw : w = rev (hash_comp :: y :: r')) by (rewrite <- Er, rev_involutive; reflexivity).
+    assert (Hlen : 2 <= length comps).
+    { unfold w in Hw. apply (f_equal (@length str)) in Hw. rewrite map_length, rev_length in Hw. simpl in Hw. lia. }
+    destruct comps as [|a [|b rest]] eqn:Ec; simpl in Hlen; try lia.
+    rewrite <- Hclean, join_cons2, !app_length. change (length [ch_slash]) with 1.
+    change (length [ch_slash; ch_hash]) with 2.
+    assert (Hlast : length (last (b :: rest) []) = 1).
+    { assert (Hl : last w [] = hash_comp).
+      { rewrite Hw. simpl rev. rewrite last_last. reflexivity. }
+      unfold w in Hl. change (map fold_ascii (a :: b :: rest)) with (fold_ascii a :: map fold_ascii (b :: rest)) in Hl.
+      change (last (fold_ascii a :: map fold_ascii (b :: rest)) []) with (last (map fold_ascii (b :: rest)) []) in Hl.
+      assert (Hm : forall l : list str, l <> [] -> last (map fold_ascii l) [] = fold_ascii (last l [])).
+      { induction l as [|u l IHl]; [contradiction|]. intros _. destruct l as [|v l']; [reflexivity|].
+        change (last (map fold_ascii (u :: v :: l')) []) with (last (map fold_ascii (v :: l')) []).
+        change (last (u :: v :: l') []) with (last (v :: l') []). apply IHl. discriminate. }
+      rewrite Hm in Hl by discriminate. apply (f_equal (@length N)) in Hl.
+      unfold fold_ascii in Hl. rewrite map_length in Hl. exact Hl. }
+    pose proof (join_ge_last [ch_slash] (b :: rest) [] ltac:(discriminate)) as Hj. lia.
+  - destruct (walk T w 0 (length w) None) as [[e0|] k] eqn:Ew; [|intro H; discriminate].
+    destruct (walk_ge T w (length w) 0 None e0 k Ew) as [_ Hk]. specialize (Hk eq_refl).
+    destruct (Nat.ltb k (length w) && match takes_value_child T e0 with None => true | Some _ => false end
+              && validate_remaining_terms T (skipn k w)); [intro H; discriminate|].
+    assert (Hrem : length (if Nat.ltb k (length w) then ch_slash :: join [ch_slash] (skipn k comps) else [])
+                   <= length clean).
+    { destruct (Nat.ltb k (length w)) eqn:Elt; [|simpl; lia]. apply Nat.ltb_lt in Elt.
+      unfold w in Elt. rewrite map_length in Elt. simpl length. rewrite <- Hclean.
+      apply join_skipn_lt; assumption. }
+    destruct (if Nat.ltb k (length w) then ch_slash :: join [ch_slash] (skipn k comps) else []) as [|c0 rem'] eqn:Erem.
+    + intro H. injection H as _ <- _. simpl. lia.
+    + destruct (takes_value_child T e0); intro H; injection H as _ <- _; exact Hrem.
+Qed.
+
+(* every schema the loader model produces satisfies the FindFits hypothesis of prefixed_equiv *)
+Corollary sch_of_fits (L : lschema) : FindFits (sch_of L).
+Proof. intros t e r iss H. exact (table_find_fits (l_table L) t e r iss H). Qed.
